@@ -255,7 +255,7 @@ class Tk2(Sym):
 
 class SyncFrontEnd(Contract):
     """x.sync(other, ...) synchronises FROM other INTO x and hands every option on unchanged"""
-    properties = ("C13", "C15")
+    properties = ("C13", "C14", "C15")
 
     def __init__(self, owner, callee, src_name, dst_name, opts):
         self.owner, self.callee, self.src_name, self.dst_name, self.opts = owner, callee, src_name, dst_name, opts
